@@ -70,4 +70,27 @@ fn main() {
     if moved.id() != &b || moved.core_document().service().iter().next().map(|s| s.id().did().as_str().to_owned()) != Some(b.as_str().to_owned()) { return Err("self-references not rewritten to the new DID".into()); }
     Ok(())
   });
+  w("sm_every_collection_is_rebased_and_metadata_kept", || {
+    use identity_core::convert::{FromJson, ToJson};
+    use identity_iota_core::IotaDocumentMetadata;
+    let a = did(6); let b = did(7); let foreign = "did:iota:0x".to_owned() + &"ee".repeat(32);
+    let m = |did: &str, frag: &str| format!(r#"{{"id":"{did}#{frag}","controller":"{did}","type":"JsonWebKey","publicKeyJwk":{{"kty":"OKP","crv":"Ed25519","x":"11qYAYKxCrfVS_7TyWQHOg7hcvPapiMlrwIaaPcHURo"}}}}"#);
+    let rels = ["authentication", "assertionMethod", "keyAgreement", "capabilityDelegation", "capabilityInvocation"];
+    let body: Vec<String> = rels.iter().map(|r| format!(r#""{r}":[{},{}]"#, m(a.as_str(), &format!("e-{r}")), m(&foreign, &format!("f-{r}")))).collect();
+    let json = format!(r#"{{"doc":{{"id":"{a}","controller":"{a}","verificationMethod":[{}],{}}},"meta":{{"created":"2022-01-01T00:00:00Z","updated":"2022-01-01T00:00:00Z","deactivated":false}}}}"#, m(a.as_str(), "gp"), body.join(","));
+    let d = IotaDocument::from_json(&json).map_err(|e| format!("setup: {e}"))?;
+    let packed = d.clone().pack().map_err(|e| e.to_string())?;
+    let same = StateMetadataDocument::unpack(&packed).map_err(|e| e.to_string())?.into_iota_document(&a).map_err(|e| e.to_string())?;
+    if same.core_document() != d.core_document() { return Err("same-DID round trip changes the document".into()); }
+    if same.metadata.to_json().unwrap() != d.metadata.to_json().unwrap() { return Err(format!("same-DID round trip changes the metadata: {} -> {}", d.metadata.to_json().unwrap(), same.metadata.to_json().unwrap())); }
+    let _ = IotaDocumentMetadata::default();
+    let moved = StateMetadataDocument::unpack(&packed).map_err(|e| e.to_string())?.into_iota_document(&b).map_err(|e| e.to_string())?;
+    let text = moved.core_document().to_json().unwrap();
+    if text.contains(a.as_str()) { return Err(format!("unpacking for another DID leaves references to the original DID: {text}")); }
+    for r in rels {
+      if !text.contains(&format!("{b}#e-{r}")) { return Err(format!("embedded method of {r} not rewritten to the new DID")); }
+      if !text.contains(&format!("{foreign}#f-{r}")) { return Err(format!("foreign method of {r} was touched")); }
+    }
+    Ok(())
+  });
 }
